@@ -1101,6 +1101,32 @@ class Interp:
         return self._global(n.id, env.module)
 
     def _global(self, name, mod):
+        if mod is not None and name in getattr(mod, "alternatives", {}) and self.decider is not None:
+            # bound differently by the arms of a module-level `if / else` or `try / except`: one partition per arm
+            alts = mod.alternatives[name]
+            pick = len(alts) - 1
+            for k, (lab, _kind, _pl) in enumerate(alts[:-1]):
+                if self.decider.choose(("modalt", mod.name, name, k), f"{mod.name.split('.')[-1]}.{name} bound where {lab}"):
+                    pick = k
+                    break
+            lab, kind, pl = alts[pick]
+            if kind == "func":
+                return FuncV(self.P.by_node[id(pl)], None)
+            if kind == "import":
+                st, a = pl
+                base = st.module or ""
+                if st.level:
+                    parts = mod.name.split(".")
+                    base = ".".join(parts[: len(parts) - st.level + (1 if mod.path.endswith("__init__.py") else 0)] + ([base] if base else []))
+                q = self.P.canonical(f"{base}.{a.name}")
+                if q in self.P.functions:
+                    return FuncV(self.P.functions[q], None)
+                if q in self.P.classes:
+                    return ClassV(self.P.classes[q])
+                return ExtV(q)
+            if kind == "importmod":
+                return ExtV(self.P.canonical(pl))
+            return self.eval(pl, Env(None, mod, None))
         if mod is not None:
             if name in mod.functions:
                 return FuncV(mod.functions[name], None)
